@@ -173,6 +173,19 @@ class ConstructionFormsSpec(FunctionSpec):
         if what == "category-only":
             small = (ctx["dim"].t < 2) if kname == "FixedArray" else F
             reg = S(st["C_dom"], c.name)
+            same0 = same_objects
+
+            def same_objects(I, res):
+                # the default values container of an object built from the category alone is its own: a
+                # container shared through class- or module-level state would let one object's values leak
+                # into every later one
+                o = res.items[0].items[1]
+                if isinstance(o, SRef) and isinstance(o.o, HObj):
+                    v = o.o.fields.get("_value")
+                    if isinstance(v, SRef) and getattr(v.o, "region", "fresh") in ("class-state", "module-state", "param", "registry"):
+                        return F
+                return same0(I, res)
+
             return [
                 rai("unknown-category", z3.Not(reg), "InvalidQuantityTypeError", props=("C05",)),
                 rai("dimension-below-2", z3.And(reg, small), "ValueError", props=("C11",)),
